@@ -22,14 +22,14 @@ import (
 
 // concrete text of the plain abstract characters
 var lineChars = map[string]string{
-	"a": "k", "s": " ", "q": `"`, "e": "=", "b": `\`, "x": "#", "u": "é", "t": "\t", "G": "\xde",
+	"a": "k", "s": " ", "q": `"`, "e": "=", "b": `\`, "x": "#", "u": "é", "t": "\t", "l": "\n", "G": "\xde",
 	"D": "DE", "N": "12", "t2": "\x12",
 	"name": "name", "pid": "pid", "comm": "comm", "profile": "profile", "info": "info",
 	"op": "operation", "mask": "requested_mask", "fsuid": "fsuid",
 }
 
 // the punctuation class p: one of these per line (chosen by the line's number)
-var linePunct = []string{"'", "%", ":", ",", "(", ")", "[", "]", "{", "}", "+", "-", ".", "*", "?", "@", "~", "&", ";", "<", ">", "|", "$", "!", "^", "`", "/"}
+var linePunct = []string{"$", "%", "'", "$", "%", "'", ":", ",", "(", ")", "[", "]", "{", "}", "+", "-", ".", "*", "?", "@", "~", "&", ";", "<", ">", "|", "$", "!", "^", "`", "/"}
 
 func concChar(c string, punct string) string {
 	if c == "p" {
@@ -193,7 +193,7 @@ func lineModel(e *Env, r *Report, prop string) {
 				// through the journald carrier: a JSON string when the line is printable UTF-8 (and every
 				// sixth time anyway), an array of bytes otherwise
 				var jl []byte
-				if i%3 == 1 && utf8.ValidString(msg) && !strings.ContainsAny(msg, "\t\x12") {
+				if i%3 == 1 && utf8.ValidString(msg) && !strings.ContainsAny(msg, "\t\x12\n") {
 					jl, _ = json.Marshal(map[string]string{"MESSAGE": msg})
 					route = "journald-string"
 				} else {
